@@ -82,6 +82,10 @@ def run(F, rep, tier, allfacts):
                 r = root_of(rf, op[1][0])
                 if isinstance(r, tuple) and r[0] == "call" and callee_matches(r[1], r"Index.*::index$"):
                     okv = ("RegId::" + reg) in describe(rf, r[2][1]) and cfg.dominates(r[3], cp[0]) and r[3] != cp[0]
+                elif isinstance(r, tuple) and r[0] == "call":
+                    # a value computed from registers[REG] before the restore (e.g. the caller's context gas plus the
+                    # callee's unused gas, kept in a local instead of being written to the register and read back)
+                    okv = ("RegId::" + reg) in describe(rf, op, depth=24) and cfg.dominates(r[3], cp[0]) and r[3] != cp[0]
                 elif isinstance(r, list):
                     # a named local assigned before the restore from registers[REG]
                     dd = describe(rf, op, depth=12)
@@ -134,7 +138,12 @@ def run(F, rep, tier, allfacts):
     }
     for reg, rx in exp.items():
         vals = [d for _, d in byreg.get(R.get(reg), [])]
-        rep.check(bool(vals) and bool(re.search(rx, vals[-1])), "TAB-call", "value:" + reg, where,
+        okv_ = bool(vals) and bool(re.search(rx, vals[-1]))
+        if reg == "IS" and vals and not okv_:
+            # $is = $pc: written as `*is = *pc` or as the same expression that was just stored in $pc
+            pcv = [d for _, d in byreg.get(R.get("PC"), [])]
+            okv_ = bool(pcv) and vals[-1] == pcv[-1] and bool(re.search(exp["PC"], vals[-1]))
+        rep.check(okv_, "TAB-call", "value:" + reg, where,
                   "$%s must be set as specified (%s); found %s" % (reg.lower(), rx, vals))
     sfp = [(i, [describe(pf, a, depth=12) for a in args]) for i, c, args, *_ in calls(pf) if callee_matches(c, r"internal::set_frame_pointer$")]
     rep.check(len(sfp) == 1 and sfp[0][1][2] == "call:deref(arg:self.registers.system_registers.sp)", "TAB-call", "FP=old_sp", where,
